@@ -44,3 +44,9 @@ check("C11", "translation_validation",
       "space (z3 decides ordered equality for all table contents within the slot bound and all slice bounds), plus path "
       "assertions that buried unsliced sorts are refused and nothing is refused spuriously; statements without outer ORDER BY are "
       "run on SQLite under both scan orders.", BSV + " and sqlmodel (ORDER BY / LIMIT / OFFSET / DISTINCT semantics)", "3/C11")
+check("C08", "other",
+      "Bounded symbolic exploration of the compile pipeline's control flow: every accepted program shape is compiled by the real "
+      "engine with symbolic parameters; on each path (z3-feasible parameter region) compilation must return, the statement's "
+      "column references must resolve unambiguously (sqlmodel), and a concrete instantiation from the path's z3 model must be "
+      "accepted by a real SQLite.", "bounded symbolic execution (symx+z3 path enumeration) of the real compiler + per-path SQLite acceptance",
+      "3/C08")
